@@ -21,6 +21,7 @@ import (
 	"encoding/pem"
 	"fmt"
 	"hash"
+	"net/url"
 	"strings"
 	"time"
 
@@ -40,7 +41,7 @@ func (f *c16Fix) battery(authHeader string, withAuth bool) (served bool, how str
 		served = true
 		how += "KV write landed; "
 	}
-	r2 := f.doHdr("GET", "/vector/indexes/"+a.Name+"/vectors/n0", authHeader, withAuth, nil)
+	r2 := f.doHdr("GET", "/vector/indexes/"+url.PathEscape(a.Name)+"/vectors/n0", authHeader, withAuth, nil)
 	for _, c := range a.Canaries {
 		if bytes.Contains(r2.Body, []byte(c)) {
 			served = true
@@ -215,6 +216,7 @@ func (f *c16Fix) forgeries(valid *c16Token, revoked *c16Token) []c16Forgery {
 }
 
 func c16AuthGroups(ctx *vkit.Ctx) {
+	c16Artifacts = false // the authentication / restart cases do not use the artifact routes
 	c16AuthProbes(ctx)
 
 	// ---- forged / manipulated credentials ------------------------------------------------
@@ -353,6 +355,35 @@ func c16AuthGroups(ctx *vkit.Ctx) {
 		for v := 0; v < 256; v++ {
 			try(len(tok)-1, byte(v))
 		}
+		// "untampered" also rules out a byte put in or taken out (every segment's length changes,
+		// so the signed text or the signature bytes differ: never an equivalent spelling, except a
+		// dropped / added final signature character that leaves the decoded signature unchanged)
+		tryStr := func(kind, alt string, pos int) {
+			// (white space around the token and base64 padding after it are spellings of the same token)
+			if alt == valid.Token || c16Equivalent(valid.Token, alt) || strings.TrimRight(strings.TrimSpace(alt), "=") == valid.Token {
+				ctx.Count("equivalent_spelling_skipped", 1)
+				return
+			}
+			ok, how := f.servedTok(alt)
+			ctx.Eval(1)
+			ctx.Count("byte_"+kind, 1)
+			ctx.Distinct(fmt.Sprintf("byte-%s|%s|%d", kind, seg(min(pos, len(tok)-1)), pos%8))
+			if ok {
+				cs.Op("%s at %d", kind, pos)
+				cs.Fail("[auth] a token with one %s byte was served (%s): position %d of %d | altered: %q | original: %s", kind, how, pos, len(tok), alt, valid.Token)
+			}
+		}
+		const b64 = "ABCDEFGHIJKLMNOPQRSTUVWXYZabcdefghijklmnopqrstuvwxyz0123456789-_"
+		for k := 0; k < ctx.N(24, 120); k++ {
+			pos := cs.R.Intn(len(tok) + 1)
+			ins := b64[cs.R.Intn(64)]
+			if cs.R.Chance(0.25) {
+				ins = "=.\x00 /+"[cs.R.Intn(6)]
+			}
+			tryStr("inserted", string(tok[:pos])+string(ins)+string(tok[pos:]), pos)
+			del := cs.R.Intn(len(tok))
+			tryStr("deleted", string(tok[:del])+string(tok[del+1:]), del)
+		}
 		cs.Op("altered %d bytes of %s", len(tok), valid)
 		if d := vexec.Diff(before, f.observe()); len(d) > 0 {
 			cs.Fail("[auth] refused credentials changed the state: %s", strings.Join(d[:min(len(d), 5)], " ; "))
@@ -430,8 +461,45 @@ func c16AuthGroups(ctx *vkit.Ctx) {
 				cs.Op("root: journaled writes")
 				f.rootJSON("PUT", "/kv/after_"+fmt.Sprint(step), map[string]any{"value": "x"})
 				f.rootJSON("POST", "/vector/actions/add", map[string]any{"index_name": f.idx[2].Name, "id": fmt.Sprintf("w%d", step), "vector": []float32{1, 2, 3, 4}})
-			case k == 7:
+			case k == 7 && cs.R.Chance(0.5):
 				checkAll("(no restart)")
+			case k == 7:
+				// persistence paths other than the two admin routes: the snapshots that data-plane
+				// operations take for their own durability (index drop, compression, import commit)
+				// must carry the signing key and the revocation markers like any other snapshot
+				scratch := fmt.Sprintf("scratch%d", step)
+				mk := func() {
+					f.rootJSON("POST", "/vector/actions/create", map[string]any{"index_name": scratch, "metric": "euclidean", "m": 8, "ef_construction": 32})
+				}
+				h0 := c16Hits()["snap.begin"]
+				switch cs.R.Intn(3) {
+				case 0:
+					kinds = append(kinds, "drop-index")
+					cs.Op("root: create + DELETE /vector/indexes/%s", scratch)
+					mk()
+					f.rootJSON("POST", "/vector/actions/add", map[string]any{"index_name": scratch, "id": "s0", "vector": []float32{1, 2, 3, 4}})
+					f.rootJSON("DELETE", "/vector/indexes/"+scratch, nil)
+					f.settle() // the arena is removed in the background
+				case 1:
+					kinds = append(kinds, "compress")
+					cs.Op("root: create + POST /vector/actions/compress %s", scratch)
+					mk()
+					for j := 0; j < 3; j++ {
+						f.rootJSON("POST", "/vector/actions/add", map[string]any{"index_name": scratch, "id": fmt.Sprintf("s%d", j), "vector": []float32{float32(j), 2, 3, 4}})
+					}
+					f.do("POST", "/vector/actions/compress", c16Root, []byte(fmt.Sprintf(`{"index_name":%q,"precision":"float16"}`, scratch)))
+					f.settle() // the compression runs as a background task: wait for it (a rewrite racing with it is another property's business)
+				default:
+					kinds = append(kinds, "import-commit")
+					cs.Op("root: create + import + commit %s", scratch)
+					mk()
+					f.do("POST", "/vector/actions/import", c16Root, []byte(fmt.Sprintf(`{"index_name":%q,"vectors":[{"id":"i0","vector":[1,2,3,4]},{"id":"i1","vector":[2,2,3,4]}]}`, scratch)))
+					f.do("POST", "/vector/actions/import/commit", c16Root, []byte(fmt.Sprintf(`{"index_name":%q}`, scratch)))
+				}
+				if c16Hits()["snap.begin"] > h0 {
+					ctx.Count("restart_dataplane_snapshots", 1)
+					dirty = false
+				}
 			default:
 				if dirty && ctx.IsKnown("D-C16-5") {
 					// guard: exactly the trigger of D-C16-5 is a restart while the signing key or a
